@@ -188,14 +188,16 @@ def run(ctx):
                     {"case": {k: c[k] for k in ("src", "sni", "sni2", "flags", "steps")}})
     ctx.traces += len(rows) + len(rows2)
     if ctx.findings:
-        cov = {"evaluations": len(rows) + len(rows2), "distinct_nontrivial": len(hits), "rule": "see passing runs", "samples": [], "exhaustive": False}
+        cov = {"evaluations": len(rows) + len(rows2), "distinct_nontrivial": len(rows), "rule": "see passing runs", "samples": [], "exhaustive": False}
         return "model_checking", cov, []
 
-    # ---- 4. vacuity: every boundary the model solved for was hit on the wire with exactly that u
-    solved = {(s["id"], s["u"]) for s in scns if s["u"] in TARGETS}
-    missing = solved - hits
-    if missing:
-        raise vlib.Machinery("C05 vacuity: the wire hello did not have the unpadded length the model solved for: %s" % sorted(missing)[:8])
+    # ---- 4. vacuity / binding of the assembly model: every scenario's wire hello had exactly the unpadded length the
+    #         model assembled from the dumped spec (so every boundary TLC solved for was really hit)
+    wire_u = dict(hits)
+    off = [(c["scn"], wire_u.get(c["sc"])) for c in cases if c["what"] == "hello" and c["scn"]["u"] != -1 and wire_u.get(c["sc"]) != c["scn"]["u"]]
+    if off:
+        raise vlib.Machinery("C05: the wire hello does not have the unpadded length the assembly model predicted (scenario, wire u): %s" % off[:4])
+    hits = {(c["scn"]["id"], c["scn"]["u"]) for c in cases if c["what"] == "hello" and c["scn"]["u"] in TARGETS}
     classes = {u for (_, u) in hits}
     if set(TARGETS) - classes:
         raise vlib.Machinery("C05 vacuity: boundary lengths never observed: %s" % sorted(set(TARGETS) - classes))
